@@ -224,6 +224,8 @@ def run(ctx):
     # lengths follow the bytes actually built (C14 rr:rdlen, C16-R4 XDR padding) - a fixed length would make the
     # answer disappear or break for some addresses only
     from vlib.runner import borrow
-    for rid_, inst in borrow(ctx, 'C14', lambda r_, k_: k_ in ('rr:rdlen', 'rr:rdata')) + borrow(ctx, 'C16', lambda r_, k_: k_ in ('bytes-then-pad', 'pad-count', 'length-word')):
+    for rid_, inst in borrow(ctx, 'C14', lambda r_, k_: k_ in ('rr:rdlen', 'rr:rdata', 'answer:returned-whole')) + borrow(ctx, 'C16', lambda r_, k_: k_ in ('bytes-then-pad', 'pad-count', 'length-word')):
         rep.check(r3, inst['ok'], '%s:%s' % (rid_, inst['key']), inst['detail'], inst['loc'])
+    dispatch_sound(ctx, 'C19', 'which responder answers is decided')
+
 
